@@ -201,17 +201,23 @@ def judge_group(g):
     return v, len(g["variants"])
 
 
+ENDINGS = ["\n", "", "\r", "\r\n", "\n\x00", "\n\n", "\n20 A=1\n", "\n \n"]
+
+
 def judge_content(c):
+    """the content line is the last line of the program (or followed by another line): whatever ends the text, the blanks stay"""
     name, tpl, exp, blanks = c
     n = tpl.count("{}")
-    text = tpl.format(*([blanks] * n))
     want = exp.format(*([blanks] * exp.count("{}")))
-    r = tool.convert(text, add_standard_prefix=False)
-    if not r.ok:
-        return [("content-layout-refused", f"{text!r}: {r.kind}")]
-    if want not in r.text:
-        return [("content-blanks-changed", f"{text!r}: expected {want!r} verbatim in {r.text!r}")]
-    return []
+    out = []
+    for ending in ENDINGS:
+        text = tpl.format(*([blanks] * n))[:-1] + ending
+        r = tool.convert(text, add_standard_prefix=False)
+        if not r.ok:
+            out.append(("content-layout-refused", f"{text!r}: {r.kind}"))
+        elif want not in r.text:
+            out.append(("content-blanks-changed", f"{text!r}: expected {want!r} verbatim in {r.text!r}"))
+    return out[:2]
 
 
 def work(chunk):
@@ -237,9 +243,9 @@ def run(run):
     # content blanks
     for name, tpl, exp in CONTENT:
         for blanks in ("", " ", "  ", "   "):
-            run.states += 1
-            run.transitions += 1
-            run.evaluations += 1
+            run.states += len(ENDINGS)
+            run.transitions += len(ENDINGS)
+            run.evaluations += len(ENDINGS)
             for sym, detail in judge_content((name, tpl, exp, blanks)):
                 run.violation(sym, {"content:" + name}, {"content": name, "tpl": tpl, "exp": exp, "blanks": blanks}, detail)
 
